@@ -441,8 +441,13 @@ class Gen:
         return bytes(r.choice(b"abc \n") for _ in range(r.range(1, 600)))
 
     def compressed(self, corrupt=False):
-        ok, z = self.codec.get("C", self.plain())
-        assert ok
+        data = self.plain()
+        ok, z = self.codec.get("C", data)
+        if not ok:
+            # the binary does not even work as a filter (reported by the checks); keep generating with an independent encoder
+            import bz2
+            z = bz2.compress(data)
+            self.codec_broken = True
         if corrupt:
             z = bytearray(z)
             k = self.r.below(3)
